@@ -39,6 +39,7 @@ func obsRange(o *sinkObs) (an.Rng, bool) {
 }
 
 func runC03(c *Ctx) {
+	c03Encodable(c)
 	// R-C03-1
 	n := 0
 	for _, r := range configSinks(c, "R-C03-1") {
